@@ -210,6 +210,11 @@ func (db *DB) loadSchema(of Object) (s *Schema, err error) {
 			return
 		}
 
+		// happens if the file only contains null
+		if s == nil {
+			return nil, ErrBadSchema
+		}
+
 		// we initialize schema from object
 		if err = s.initialize(db, of); err != nil {
 			return
